@@ -66,6 +66,16 @@ class Result:
     def error(self, msg: str) -> None:
         self.errors.append(msg)
 
+    def unrecognised(self, rule: str, instance: str, where: str,
+                     msg: str) -> None:
+        """The construct the rule is about was not found in a form the
+        analysis understands: an ANALYSIS-ERROR (exit 2), never a VIOLATION
+        -- a behaviour-preserving rewrite must not raise an alarm."""
+        self.obligations.append(Obligation(rule, instance, where, False,
+                                           "unrecognised: " + msg))
+        self.errors.append(f"{rule} {instance}: idiom not recognised at "
+                           f"{where}: {msg}")
+
     def need(self, rule: str, got: int, at_least: int, what: str) -> None:
         """Vacuity guard: a rule that matches fewer sites than were confirmed
         by hand is an analysis failure, never a pass."""
